@@ -163,6 +163,7 @@ class Registry:
         self.assumptions: dict[str, str] = {}
         self.lemmas: list = []
         self.macros: dict[str, tuple] = {}
+        self.funcrefs: dict[tuple, str] = {}
 
     # -- declaration helpers exposed to sidecar files -----------------------
     def contract(self, module, qualname, **kw):
@@ -186,6 +187,34 @@ class Registry:
 
     def macro(self, name, params, body):
         self.macros[name] = (list(params), body)
+
+    def funcref(self, module, name, const):
+        """A module-level function used as a *value* (`return identity`).
+
+        `const` becomes a 0-ary spec function of sort U standing for the
+        function object; its defining fact  forall x. APP(const(), x) == E(x)
+        is not written by hand but generated here from the contract of
+        `module:name`, which must be verified from source on every run
+        (not assumed), have one parameter, no precondition, an empty frame, no
+        exceptional exit and a postcondition of the form `result == E`."""
+        fc = self.funcs.get(f"{module}:{name}")
+        if fc is None:
+            raise ValueError(f"funcref: no contract for {module}:{name}")
+        posts = [c.text.strip() for c in fc.ensures]
+        ok = (not fc.assumed and fc.verify and len(fc.params) == 1
+              and not fc.requires and not fc.raises and not fc.modifies
+              and not fc.generator and len(posts) == 1
+              and posts[0].startswith("result == "))
+        if not ok:
+            raise ValueError(f"funcref: contract of {module}:{name} is not a "
+                             "verified, total, pure `result == E` contract")
+        (p,) = fc.params
+        e = posts[0][len("result == "):]
+        self.ufunc(const, [], "U")
+        self.axiom(f"not is_none({const}())", fc.props)
+        self.axiom(f"forall(lambda {p}: APP({const}(), {p}) == ({e}), {p}='U', "
+                   f"pats=['APP({const}(), {p})'])", fc.props)
+        self.funcrefs[(module, name)] = const
 
     def axiom(self, text, props=()):
         self.axioms.append(Clause(text, list(props)))
@@ -242,6 +271,7 @@ class Registry:
         ns = {
             "contract": self.contract, "cls": self.cls, "ufunc": self.ufunc,
             "axiom": self.axiom, "macro": self.macro, "assumption": self.assumption,
+            "funcref": self.funcref,
             "Loop": Loop, "Clause": Clause,
         }
         for fn in sorted(os.listdir(d)):
